@@ -83,8 +83,28 @@ def ref_density(kind, dim, zseed):
 DENSITY_KINDS = ["quartic", "gauss", "heavy", "banana"]
 
 
+def post_target(ctx, rec, with_grad=True):
+    """A genuine cuqi Posterior (linear-Gaussian likelihood, Gaussian prior) as target.  The seam is the object
+    boundary: the instance's logd / gradient are wrapped by logging, fault-injectable probes that call the real bound
+    methods; the reference functions are the same methods of a separately built twin."""
+    prec = dict(rec, prior=rec.get("prior", "gauss_vec"), m=rec["dim"] + 1, model="matrix")
+    post, _ = lin_posterior(Ctx(0), prec)
+    twin, _ = lin_posterior(Ctx(0), prec)
+    real_logd, real_grad = post.logd, post.gradient
+    ref_logd = lambda x: float(np.ravel(np.asarray(twin.logd(np.asarray(x, float).reshape(-1)), float))[0])
+    ref_grad = lambda x: np.asarray(twin.gradient(np.asarray(x, float).reshape(-1)), float).reshape(-1)
+    p_logd = Probe(ctx, "logd", lambda x: real_logd(x))
+    p_grad = Probe(ctx, "grad", lambda x: real_grad(x)) if with_grad else None
+    post.logd = p_logd
+    if with_grad:
+        post.gradient = p_grad
+    return post, {"logd": p_logd, "grad": p_grad, "ref_logd": ref_logd, "ref_grad": ref_grad}
+
+
 def ud_target(ctx, rec, with_grad=True):
     """UserDefinedDistribution whose callables are probes.  rec: {kind, dim, zseed}."""
+    if rec["kind"] == "post":
+        return post_target(ctx, rec, with_grad)
     logp, grad = ref_density(rec["kind"], rec["dim"], rec["zseed"])
     p_logd = Probe(ctx, "logd", logp)
     p_grad = Probe(ctx, "grad", grad) if with_grad else None
@@ -139,6 +159,25 @@ def lin_posterior(ctx, rec):
         model = LinearModel(pf, pa, range_geometry=A.shape[0], domain_geometry=n)
     lik = Gaussian(model(prior), rec.get("noise_cov", 0.5), name="y").to_likelihood(y)
     return Posterior(lik, prior), probes
+
+
+def multi_lik_posterior(ctx, rec):
+    """MultipleLikelihoodPosterior: two Gaussian likelihoods with linear models on one Gaussian prior."""
+    A, y = _lin_data(rec)
+    rs = np.random.RandomState(rec["zseed"] + 3)
+    A2, y2 = rs.randn(*A.shape), rs.randn(A.shape[0])
+    prior = _prior(rec)
+    l1 = Gaussian(LinearModel(A)(prior), rec.get("noise_cov", 0.5), name="y1")
+    l2 = Gaussian(LinearModel(A2)(prior), 0.8, name="y2")
+    return JointDistribution(l1, l2, prior)(y1=y, y2=y2), {}
+
+
+def rto_tuple_target(rec):
+    """legacy LinearRTO 5-tuple (data, model, L_sqrtprec, P_mean, P_sqrtprec)"""
+    A, y = _lin_data(rec)
+    n, m = rec["dim"], A.shape[0]
+    return (y, A, np.sqrt(1 / rec.get("noise_cov", 0.5)) * np.eye(m), rec.get("prior_mean", 0.0) * np.ones(n),
+            np.sqrt(1 / rec.get("prior_cov", 0.8)) * np.eye(n))
 
 
 def nonlin_posterior(ctx, rec):
@@ -205,7 +244,7 @@ def gen_exp_scenario(r, kind=None, dim_max=5):
     t, k = sc["target"], sc["knobs"]
     ip = [round(r.uniform(-1, 1), 3) for _ in range(dim)]
     if kind in ("MH", "CWMH", "ULA", "MALA", "NUTS"):
-        t["kind"] = r.choice(DENSITY_KINDS)
+        t["kind"] = r.choice(DENSITY_KINDS + ["post"])
         if r.random() < 0.8:
             k["initial_point"] = ip
     if kind == "MH":
@@ -234,6 +273,8 @@ def gen_exp_scenario(r, kind=None, dim_max=5):
         if t["prior"] == "gmrf" and dim < 2:
             t["dim"] = dim = 2
             ip = ip + [0.25]
+        if r.random() < 0.25:
+            t.update(likelihoods=2, model="matrix")
         k["maxit"] = r.choice([3, 10, 40])
         k["tol"] = r.choice([1e-4, 1e-8, 1e-12])
         if r.random() < 0.5:
@@ -275,6 +316,8 @@ def build_exp_target(ctx, sc):
         return ud_target(ctx, rec, with_grad=True)
     if kind == "PCN":
         return nonlin_posterior(ctx, rec)
+    if kind == "LinearRTO" and rec.get("likelihoods") == 2:
+        return multi_lik_posterior(ctx, rec)
     if kind in ("LinearRTO", "RegularizedLinearRTO", "UGLA"):
         return lin_posterior(ctx, rec)
     if kind == "Conjugate":
@@ -461,6 +504,9 @@ def gen_legacy_scenario(r, kind=None):
         k["adapt_step_size"] = r.choice([True, False, False]) if ss is None else ss
     if kind == "RegularizedLinearRTO":
         k.pop("maxit", None)        # legacy constructor hard-codes maxit=100
+    if kind == "LinearRTO" and sc["target"].get("prior") == "gauss" and not sc["target"].get("likelihoods") and r.random() < 0.3:
+        sc["target"]["tuple_form"] = True
+        sc["target"]["model"] = "matrix"
     if kind == "CWMH" and isinstance(k.get("scale"), list):
         k["scale"] = k["scale"]
     return sc
@@ -470,7 +516,10 @@ def build_legacy_sampler(ctx, sc, callback=None):
     import cuqi.sampler as LS
     kind = sc["kind"]
     exp_kind = {"pCN": "PCN"}.get(kind, kind)
-    target, info = build_exp_target(ctx, dict(sc, kind=exp_kind))
+    if kind == "LinearRTO" and sc["target"].get("tuple_form"):
+        target, info = rto_tuple_target(sc["target"]), {}
+    else:
+        target, info = build_exp_target(ctx, dict(sc, kind=exp_kind))
     k = dict(sc["knobs"])
     if k.get("x0") is not None:
         k["x0"] = np.array(k["x0"], float)
